@@ -29,6 +29,50 @@ CLAIMED = {
         "equals the CVSS v2 guide equations in exact-rational polynomial normal form; weights compared as rationals.",
         "Trusted: " + TB,
     ),
+    "C02": (
+        "other",
+        "literal-table evaluation and cross-derivation; decision tables for m() and the six classifiers; abstract "
+        "interpretation of compute_base_score (search loop summarised) vs the specification algorithm",
+        "DESIGN.md section 4 C02",
+        "Static analysis of CVSS4 scoring: 270 lookup rows, highest-severity vectors, depths and level tables compared "
+        "by value and cross-derived; m() and EQ1..EQ6 equal the specification's predicates on every valuation of the "
+        "atoms they mention; the gated expression DAG of compute_base_score equals the specification's algorithm for "
+        "each joint (EQ3,EQ6) case; search loop is first-fit over the product of the per-class lists on all 14 distances.",
+        "Not decided: binary floating point vs exact evaluation (EPSILON sufficiency). Lookup reference is the table "
+        "frozen from the pinned tree (no second copy offline). Trusted: " + TB,
+    ),
+    "C04": (
+        "other",
+        "dominating-guard analysis of the parsers; table agreement with the grammar; abstract interpretation for "
+        "implicit-exception sites; raise classification",
+        "DESIGN.md section 4 C04",
+        "Every store into the metric map is dominated by the four grammar facts on the raw split components; consulted "
+        "tables equal the specification grammar; prefix chain accepts exactly the version prefixes and drops as many "
+        "segments as the prefix has slashes; check_mandatory (abstractly interpreted) rejects exactly the vectors lacking a "
+        "mandatory metric; every explicit raise has the taxonomy's class; every implicit-exception site reachable from a "
+        "constructor is discharged.",
+        "Raises guarded by conditions outside the recognised set are listed as undecided (possible over-rejection). "
+        "Input is assumed to be str. Trusted: " + TB,
+    ),
+    "C18": (
+        "proof",
+        "effect analysis over the resolved call graph + abstract interpretation of every accessor",
+        "DESIGN.md section 4 C18",
+        "The transitive write set of every public accessor is empty (so any sequence of calls equals independent single "
+        "calls), no accessor can raise on any abstract post-construction state for any option combination, and returned "
+        "containers are fresh objects holding immutable values.",
+        "Assumes the post-construction abstract state (C04 summary) and immutability of str/float/tuple. Trusted: " + TB,
+    ),
+    "C19": (
+        "other",
+        "package-wide effect census; who-may-call rules for ambient state and I/O; set-order typestate",
+        "DESIGN.md section 4 C19",
+        "No function writes a module-level name or imported table, import-time code only binds constants, no ambient "
+        "state (decimal context, sys, os, warnings, random, time) is touched, print/input only in the CLI modules, every "
+        "quantize() has an explicit rounding mode, no set iteration order reaches a result.",
+        "Sufficient condition for history/thread independence; ambient rounding influence on v3's inexact ** is not "
+        "decided. Trusted: " + TB,
+    ),
 }
 
 PENDING_REASON = "check under construction in this session; not claimed until its static rule set is built and validated"
